@@ -104,7 +104,8 @@ Good == {
   [style |-> "expanded",   toks |-> <<T("charset_mark"), NL, T("other"), T("open"), NL, Tok("string", 1), NL, T("close"), NL>>],
   [style |-> "compressed", toks |-> <<T("bom"), T("other"), T("open"), Tok("string", 1), T("close"), NL>>],
   [style |-> "compressed", toks |-> <<T("other"), T("open"), T("other"), Tok("customprop_value", 2), T("close"), NL>>],
-  [style |-> "expanded",   toks |-> <<T("other"), T("open"), NL, T("close"), NL, NL, Tok("comment", 2), NL>>] }
+  [style |-> "expanded",   toks |-> <<T("other"), T("open"), NL, T("close"), NL, NL, Tok("comment", 2), NL>>],
+  [style |-> "compressed", toks |-> <<T("other"), T("open"), Tok("comment", 10), T("other"), T("close"), NL>>] }
 
 Bad == {
   [style |-> "expanded",   why |-> "final_newline", toks |-> <<T("other"), T("open"), T("close")>>],
